@@ -26,6 +26,7 @@ pub struct Case {
     /// 3: conforming server, reached by the SECOND connect of a Connector whose first connect failed at licensing;
     /// 4: conforming server, reached by a second connection made on the same thread after a first connection whose
     ///    transport died exactly when the Client Info PDU was handed to it
+    /// 5: like 1, the confirm carrying no negotiation structure at all
     pub server: u8,
     pub flags: u32,
 }
@@ -67,6 +68,11 @@ pub fn make_case(combo: u64, idx: u64, seed: u64) -> Case {
         0 => {
             case.server = 1;
             case.selected = *r.pick(&[0u32, 0, 0, 4, 8, 16, 0x20, 0x80000000]);
+            // ... or with a confirm that carries no negotiation structure at all (what a pre-negotiation server sends)
+            if r.chance(1, 3) {
+                case.server = 5;
+                case.selected = 0;
+            }
         }
         2 => {
             case.server = if r.chance(1, 2) { 3 } else { 4 };
@@ -102,8 +108,10 @@ fn describe(c: &Case) -> Value {
 
 pub fn check_case(c: &Case, rep: &mut Report) {
     rep.eval();
-    let mut p = Profile::default();
-    p.selected_protocol = c.selected;
+    // the server's own parameters vary too: announced version (the Client Info PDU has a short and an extended form),
+    // identifiers, optional blocks
+    let mut pr = Rng::new(c.nla_seed ^ 0x1717_0017);
+    let mut p = gen::profile(&mut pr, c.selected);
     // the flags byte of the negotiation response: every combination is a legitimate server
     p.cc_flags = [0u8, 0x01, 0x03, 0x07, 0x08, 0x0f, 0x17, 0x1f, 0x02, 0xff][(c.nla_seed % 10) as usize];
     let d = Duplex::new(p);
@@ -115,8 +123,12 @@ pub fn check_case(c: &Case, rep: &mut Report) {
     d.with(|s| {
         s.tls_identity = c.identity;
         s.nla_cfg = nla;
-        if c.server == 1 {
+        if c.server == 1 || c.server == 5 {
             s.tls_policy = crate::server::TlsPolicy::Never;
+        }
+        if c.server == 5 {
+            let bare = crate::refs::proto::tpkt(&crate::refs::proto::connection_confirm_bare()).v;
+            s.frame_hook = Some(Box::new(move |k, _b| if k == "connection-confirm" { Some(bare.clone()) } else { None }));
         }
         // a server presenting unusual flags does not insist on being able to unseal what the client sends
         s.lenient_pubkey = c.server == 2;
@@ -271,7 +283,7 @@ pub fn check_case(c: &Case, rep: &mut Report) {
     if connect.is_ok() || c.server != 0 {
         rep.nontrivial(fnv(j.to_string().as_bytes()));
     }
-    rep.set("server_behaviours", ["conforming", "selection-leaves-transport-in-clear", "unusual-challenge-flags", "second-connect-of-a-connector-whose-first-failed", "connection-after-one-whose-transport-died-at-the-client-info"][c.server as usize].to_string());
+    rep.set("server_behaviours", ["conforming", "selection-leaves-transport-in-clear", "unusual-challenge-flags", "second-connect-of-a-connector-whose-first-failed", "connection-after-one-whose-transport-died-at-the-client-info", "confirm-without-negotiation-structure"][c.server as usize].to_string());
     rep.set("modes", mode.clone());
     if rep.want_sample() {
         let jj = j.clone();
